@@ -164,7 +164,7 @@ def gen_other_data(rng, htype, spine, col):
 
 
 def gen_score(rng, spines=None, measures=None, allow_splits=True, kern_only=False, plain=False, comments=True, opening_barline=None,
-              final_barline=None, signatures_first=True, mid_signatures=False, non_ascii=True, unknown_types=False, chords=True, accidentals=True, compound=False, nested=True):
+              final_barline=None, signatures_first=True, mid_signatures=False, non_ascii=True, unknown_types=False, chords=True, accidentals=True, compound=False, nested=True, hidden_bars=False, quiet=False):
     """A well-formed score.  The live spine paths are tracked here (the reference model): every cell records the cell above it on
     its own path (both branches of a split -> the split cell; merged sub-spines -> the first join cell of their spine)."""
     nsp = spines if spines is not None else rng.choice([1, 1, 2, 2, 3, 4])
@@ -232,6 +232,8 @@ def gen_score(rng, spines=None, measures=None, allow_splits=True, kern_only=Fals
     open_bar = opening_barline if opening_barline is not None else rng.random() < 0.4
     last_bar = final_barline if final_barline is not None else rng.random() < 0.6
     barno = 1
+    # (quiet) whole measures of null tokens in some spines, never in spine 0
+    quiet_measures = {(sid, m) for sid in range(1, nsp) for m in range(nmeasures) if quiet and rng.random() < 0.35}
     for m in range(nmeasures):
         if m > 0 or open_bar:
             bt = rng.choice(BAR_TYPES)
@@ -240,6 +242,10 @@ def gen_score(rng, spines=None, measures=None, allow_splits=True, kern_only=Fals
             fer = ';' if rng.random() < 0.15 else ''            # a fermata on the barline
             text = '=' + dbl + num + bt + fer
             exp = '=' + dbl + bt + fer
+            if hidden_bars and rng.random() < 0.25:
+                # an invisible barline ('-' after the number): kernpy flags the token hidden and exports a null token in its place
+                text = '=' + dbl + num + '-' + bt + fer
+                exp = '.'
             simple_row('bar', lambda sid, col: Cell('bar', text, sid, col, exp=exp))
             barno += 1
         if mid_signatures and m > 0 and rng.random() < 0.5:
@@ -281,6 +287,8 @@ def gen_score(rng, spines=None, measures=None, allow_splits=True, kern_only=Fals
             kern_texts = []
 
             def data(sid, col):
+                if quiet and (sid, m) in quiet_measures:
+                    return Cell('null', '.', sid, col)       # a spine that is silent for this whole measure
                 if headers[sid] == '**kern':
                     c = gen_kern_data(rng, sid, col, plain, chords, accidentals, compound)
                     if c.kind != 'null':
